@@ -18,7 +18,7 @@ import (
 	"verif/run"
 )
 
-func TestMain(m *testing.M) { run.Main(m, "C05") }
+func TestMain(m *testing.M) { gen.AvoidZeroExp = false; run.Main(m, "C05") }
 
 const chk = "json-accept"
 
